@@ -280,28 +280,97 @@ pub fn setup(handle: &Handle, cfg: &Cfg) -> Result<()> {
     Ok(())
 }
 
-/// reads a receive stream to the end, verifying every byte against the keyed payload
+fn check_chunk(ep: &'static str, sid: u64, key: u64, off: u64, chunk: &[u8]) {
+    let mut bad = None;
+    for (j, b) in chunk.iter().enumerate() {
+        if *b != cfg::payload_byte(key, off + j as u64) {
+            bad = Some(off + j as u64);
+            break;
+        }
+    }
+    match bad {
+        None => log(ep, format!("read {sid} {off} {} ok", chunk.len())),
+        Some(p) => log(ep, format!("read {sid} {off} {} BAD {p}", chunk.len())),
+    }
+}
+
+/// reads a receive stream to the end, verifying every byte against the keyed payload.
+/// The read API is a scenario parameter (`rapi`): receive(), receive_vectored, tokio / futures AsyncRead
+/// with a small buffer.
 async fn read_all(ep: &'static str, mut recv: ReceiveStream, key: u64, cfg: Cfg, stop_after: Option<u64>) {
     let sid: u64 = recv.id().into();
     let mut off = 0u64;
+    let api = if cfg.rapi == 9 { cfg::mix(cfg.seed ^ sid ^ 0x7a91) % 4 } else { cfg.rapi };
+    if stop_after == Some(0) {
+        let _ = recv.stop_sending(7u32.into());
+        log(ep, format!("stop {sid}"));
+        return;
+    }
+    let mut buf = vec![0u8; cfg.rbuf as usize];
     loop {
         if cfg.read_delay_ms > 0 {
             io::time::delay(Duration::from_millis(cfg.read_delay_ms)).await;
         }
-        match recv.receive().await {
-            Ok(Some(chunk)) => {
-                let mut bad = None;
-                for (j, b) in chunk.iter().enumerate() {
-                    if *b != cfg::payload_byte(key, off + j as u64) {
-                        bad = Some(off + j as u64);
-                        break;
+        // each arm yields: Ok(Some(bytes read this round)) | Ok(None) = clean end | Err
+        let round: core::result::Result<Option<u64>, String> = match api {
+            1 => {
+                let mut chunks = [Bytes::new(), Bytes::new(), Bytes::new()];
+                match recv.receive_vectored(&mut chunks).await {
+                    Ok((count, is_open)) => {
+                        let mut n = 0u64;
+                        for c in &chunks[..count] {
+                            check_chunk(ep, sid, key, off + n, c);
+                            n += c.len() as u64;
+                        }
+                        if !is_open && count == 0 {
+                            Ok(None)
+                        } else {
+                            if !is_open {
+                                // data and the end were reported together
+                                off += n;
+                                log(ep, format!("eof {sid} {off}"));
+                                return;
+                            }
+                            Ok(Some(n))
+                        }
                     }
+                    Err(e) => Err(dbg(&e)),
                 }
-                match bad {
-                    None => log(ep, format!("read {sid} {off} {} ok", chunk.len())),
-                    Some(p) => log(ep, format!("read {sid} {off} {} BAD {p}", chunk.len())),
+            }
+            2 => {
+                use tokio::io::AsyncReadExt;
+                match recv.read(&mut buf).await {
+                    Ok(0) => Ok(None),
+                    Ok(n) => {
+                        check_chunk(ep, sid, key, off, &buf[..n]);
+                        Ok(Some(n as u64))
+                    }
+                    Err(e) => Err(dbg(&e)),
                 }
-                off += chunk.len() as u64;
+            }
+            3 => {
+                use futures::io::AsyncReadExt;
+                match recv.read(&mut buf).await {
+                    Ok(0) => Ok(None),
+                    Ok(n) => {
+                        check_chunk(ep, sid, key, off, &buf[..n]);
+                        Ok(Some(n as u64))
+                    }
+                    Err(e) => Err(dbg(&e)),
+                }
+            }
+            _ => match recv.receive().await {
+                Ok(Some(chunk)) => {
+                    check_chunk(ep, sid, key, off, &chunk);
+                    Ok(Some(chunk.len() as u64))
+                }
+                Ok(None) => Ok(None),
+                Err(e) => Err(dbg(&e)),
+            },
+        };
+        match round {
+            Ok(Some(n)) => {
+                off += n;
                 if let Some(limit) = stop_after {
                     if off >= limit {
                         let _ = recv.stop_sending(7u32.into());
@@ -315,29 +384,64 @@ async fn read_all(ep: &'static str, mut recv: ReceiveStream, key: u64, cfg: Cfg,
                 return;
             }
             Err(e) => {
-                log(ep, format!("err {sid} receive {}", dbg(&e)));
+                log(ep, format!("err {sid} receive {e}"));
                 return;
             }
         }
     }
 }
 
-/// writes `size` keyed bytes in chunks drawn from the scenario PRNG, then finishes
+/// writes `size` keyed bytes in chunks drawn from the scenario PRNG, then finishes.
+/// The write API is a scenario parameter (`wapi`): send(Bytes), send_vectored, tokio write /
+/// write_vectored, futures write — `write` is logged with what the API reported as accepted.
 async fn write_all(ep: &'static str, mut send: SendStream, key: u64, size: u64, cfg: Cfg, reset_after: Option<u64>, salt: u64) {
     let sid: u64 = send.id().into();
     let mut rng = Rng(cfg::mix(cfg.seed ^ salt ^ sid));
+    let api = if cfg.wapi == 9 { cfg::mix(cfg.seed ^ sid ^ 0x3c55) % 5 } else { cfg.wapi };
     let mut off = 0u64;
     while off < size {
         let max = cfg.chunk.max(1);
         let n = (1 + rng.below(max)).min(size - off) as usize;
-        let data = Bytes::from(cfg::payload(key, off, n));
-        match send.send(data).await {
-            Ok(()) => log(ep, format!("write {sid} {off} {n}")),
-            Err(e) => {
-                log(ep, format!("err {sid} send {}", dbg(&e)));
+        let data = cfg::payload(key, off, n);
+        // number of bytes the API reported as accepted
+        let accepted: core::result::Result<usize, String> = match api {
+            1 => {
+                let cut1 = n / 3;
+                let cut2 = 2 * n / 3;
+                let mut chunks = [Bytes::copy_from_slice(&data[..cut1]), Bytes::copy_from_slice(&data[cut1..cut2]), Bytes::copy_from_slice(&data[cut2..])];
+                send.send_vectored(&mut chunks).await.map(|_| n).map_err(|e| dbg(&e))
+            }
+            2 => {
+                use tokio::io::AsyncWriteExt;
+                send.write(&data).await.map_err(|e| dbg(&e))
+            }
+            3 => {
+                use tokio::io::AsyncWriteExt;
+                let cut1 = n / 3;
+                let cut2 = 2 * n / 3;
+                let slices = [std::io::IoSlice::new(&data[..cut1]), std::io::IoSlice::new(&data[cut1..cut2]), std::io::IoSlice::new(&data[cut2..])];
+                send.write_vectored(&slices).await.map_err(|e| dbg(&e))
+            }
+            4 => {
+                use futures::io::AsyncWriteExt;
+                send.write(&data).await.map_err(|e| dbg(&e))
+            }
+            _ => send.send(Bytes::from(data)).await.map(|_| n).map_err(|e| dbg(&e)),
+        };
+        let n = match accepted {
+            Ok(0) if n > 0 => {
+                log(ep, format!("err {sid} send wrote-zero"));
                 return;
             }
-        }
+            Ok(k) => {
+                log(ep, format!("write {sid} {off} {k}"));
+                k
+            }
+            Err(e) => {
+                log(ep, format!("err {sid} send {e}"));
+                return;
+            }
+        };
         off += n as u64;
         if let Some(r) = reset_after {
             if off >= r {
@@ -349,6 +453,20 @@ async fn write_all(ep: &'static str, mut send: SendStream, key: u64, size: u64, 
                 return;
             }
         }
+    }
+    if cfg.reset_after_finish_ms > 0 && reset_after.is_some() {
+        // finish without waiting for the acknowledgement, then reset a little later
+        match send.finish() {
+            Ok(()) => log(ep, format!("finish {sid} {off}")),
+            Err(e) => {
+                log(ep, format!("err {sid} finish {}", dbg(&e)));
+                return;
+            }
+        }
+        io::time::delay(Duration::from_millis(cfg.reset_after_finish_ms)).await;
+        let _ = send.reset(9u32.into());
+        log(ep, format!("reset {sid}"));
+        return;
     }
     match send.close().await {
         Ok(()) => log(ep, format!("finish {sid} {off}")),
